@@ -9,6 +9,8 @@ CONSTANTS
   MaxMembers <- M22
   MaxClasses = 2
   BaseAlpha <- None
+  MaxBases = 1
+  ClassComments <- NoComment
   TopAlpha <- None
   MaxTops = 0
   CmdKinds <- None
